@@ -512,7 +512,9 @@ pub(crate) fn compile_inner(inner_re: &str, options: &RegexOptions) -> Result<Ra
 
     let re = RaBuilder::new()
         .configure(config)
-        .syntax(options.syntaxc)
+        // case-insensitivity is already spelled out in `inner_re` by the parser, including
+        // inner `(?-i:..)` groups that must stay case-sensitive
+        .syntax(options.syntaxc.case_insensitive(false))
         .build(inner_re)
         .map_err(CompileError::InnerError)
         .map_err(Error::CompileError)?;
